@@ -66,6 +66,14 @@ class Stream(Family):
                 # no encoding in force at all
                 main, calls = gc.gen_wellformed_calls(rng, no_main=True)
                 yield dict(kind='wellformed', main=main, calls=calls, noenc=True)
+                # the same reader object iterated twice (rewound in between): the last container declares a wide codec
+                # that must not be in force when the second pass starts
+                calls2 = [list(x) for x in calls]
+                for x in reversed(calls2):
+                    if x[0] == 'new_file':
+                        x[1] = sl.S(rng.choice(['utf-16', 'utf-32-be']))
+                        break
+                yield dict(kind='wellformed', main=main, calls=calls2, noenc=True, second_pass=True)
 
     def _impl(self, c):
         if '_impl' not in c:
@@ -74,6 +82,9 @@ class Stream(Family):
                 c['_impl'] = (wobs, None, None, None, '()', per)
             else:
                 robs, records, term, orc = sl.run_reader(data, chunk=c.get('chunk'))
+                if c.get('second_pass'):
+                    # the oracle looks at what the same reader object yields when it is iterated again
+                    records, term = sl.run_reader_twice(data)
                 c['_impl'] = (wobs, data, robs, (records, term), orc, per)
         return c['_impl']
 
@@ -668,9 +679,13 @@ class Truncate(Family):
                 for v in [str(true + d) for d in (-3, -2, -1, 1, 2, 3)] + ['0', '-1', 'abc', '1_0', str(2 ** 70),
                                                                           str(true + 10 ** 6)]:
                     yield dict(kind='length', file=f, at=si, value=v)
-            # framing of LARGE content (sizes around the usual buffer sizes): exactly `length` bytes, then the next header
-            if i < 5:
-                n = (8191, 8192, 8193, 65536, 65537)[i]
+            # framing of LARGE content (sizes around the usual buffer sizes and around every size harvested from the code
+            # under test): exactly `length` bytes, then the next header
+            import sizes
+            harvested = sorted(sizes.harvested_sizes(lo=4096, hi=2 * 1024 * 1024), reverse=True)
+            big_sizes = [c0 + 5 for c0 in harvested] + [8191, 8192, 8193, 65537] + [c0 + d for c0 in harvested for d in (-1, 1)]
+            if i < len(big_sizes):
+                n = big_sizes[i]
                 body = (b'a' * 70 + b'\n') * (n // 71) + b'b' * (n - 71 * (n // 71) - 1) + b'\n'
                 big = dict(crlf=False, trailing=[], sections=[
                     dict(id='diffx', opts=[['version', '1.0'], ['encoding', 'utf-8']], blank=[], content=None, expect={}, enc=None, ast=None),
@@ -718,6 +733,8 @@ class Truncate(Family):
 
     def model_line(self, c):
         data, robs, records, term, orc = self._impl(c)
+        if len(data) > 300000:
+            return None         # very large files: the framing oracle alone (the specification's reading of the same file)
         return sl.read_model_line(data, orc)
 
     def impl_obs(self, c):
@@ -882,6 +899,18 @@ class Order(Family):
                        blanks=[''] + [rng.choice(BLANKS) if rng.random() < 0.5 else '' for _ in seq[1:]])
         for h in ['#....meta: length=2\nx\n', '#.Change:\n', '#.change\n', '.change:\n', '#.changes:\n', '# .change:\n']:
             yield dict(kind='bad-header', ids=['diffx'], extra=h)
+        # header lines whose total length sits at / around the sizes harvested from the code under test (and one read-ahead
+        # block more): the order check must not depend on how long the header is
+        import sizes
+        targets = sorted({t0 + d for c0 in sizes.harvested_sizes(lo=64, hi=70000) for t0 in (c0, c0 + 96) for d in (-1, 0, 1)})
+        for t0 in targets:
+            for _ in range(2):
+                seq = ['diffx']
+                for _ in range(rng.randint(0, 3)):
+                    seq.append(rng.choice(spec.MAY_FOLLOW[seq[-1]]))
+                seq.append(rng.choice(IDS24) if rng.random() < 0.6 else rng.choice(spec.MAY_FOLLOW[seq[-1]]))
+                yield dict(kind='long-header', ids=seq, pad_last=t0)
+                yield dict(kind='long-header', ids=seq + [rng.choice(IDS24)], pad_last=t0)
         # histories: several files read one after the other IN ONE PROCESS (the case carries the whole history, so a replay
         # reproduces it): what an earlier file made the reader do must not change the verdict on a later one
         for i in range(150 if tier == 'quick' else 3000):
@@ -897,7 +926,17 @@ class Order(Family):
 
     def _data(self, c):
         blanks = c.get('blanks') or [''] * len(c['ids'])
-        return b''.join(b.encode() + render_id(s) for b, s in zip(blanks, c['ids'])) + c.get('extra', '').encode()
+        parts = [b.encode() + render_id(s) for b, s in zip(blanks, c['ids'])]
+        if c.get('pad_last') and parts:
+            # the last header line padded with an unknown option to an exact total length (newline included)
+            last = parts[-1]
+            i = last.index(b'\n')
+            line = last[:i]
+            sep = b', pad=' if b'=' in line else b' pad='
+            k = c['pad_last'] - (len(line) + len(sep) + 1)
+            if k >= 1:
+                parts[-1] = line + sep + b'p' * k + last[i:]
+        return b''.join(parts) + c.get('extra', '').encode()
 
     def _impl(self, c):
         if '_impl' not in c:
@@ -920,7 +959,7 @@ class Order(Family):
         return sl.collapse_exc(line)
 
     def key(self, c):
-        return json.dumps([c['kind'], c.get('history') or c['ids'], c.get('blanks'), c.get('extra')])
+        return json.dumps([c['kind'], c.get('history') or c['ids'], c.get('blanks'), c.get('extra'), c.get('pad_last')])
 
     def nontrivial(self, c):
         return len(c['ids']) >= 2
@@ -1153,6 +1192,18 @@ class Chunk(Family):
                         grid.append((fi, p, b))
         for (fi, p, b) in grid:
             yield dict(kind='grid', data=hx(files[fi]), pad=p, block=b)
+        # other kinds of byte stream (a BufferedReader, a real file): whatever the stream object offers (peek, readinto,
+        # its own buffer of io.DEFAULT_BUFFER_SIZE bytes), the records are those of the in-memory reading; pads move the
+        # following headers across the buffer edge
+        import io as _io
+        edge = _io.DEFAULT_BUFFER_SIZE
+        for wrap in ('buffered', 'file'):
+            for fi in range(min(2, len(files))):
+                first = files[fi].index(b'\n') + 1
+                for p in [edge - first - d for d in (0, 1, 2, 5, 30, 60, 95, 96, 97, 120)] + [2 * edge - first - 40, 5, 0]:
+                    if p >= 5 or p == 0:
+                        for b in ((96,) if tier == 'quick' else (96, 7, 4096)):
+                            yield dict(kind='grid', data=hx(files[fi]), pad=p, block=b, wrap=wrap)
 
     def _data(self, c):
         data = unhx(c['data'])
@@ -1169,7 +1220,7 @@ class Chunk(Family):
     def _impl(self, c):
         if '_impl' not in c:
             data = self._data(c)
-            c['_impl'] = (data,) + sl.run_reader(data, chunk=c['block'])
+            c['_impl'] = (data,) + sl.run_reader(data, chunk=c['block'], wrap=c.get('wrap'))
         return c['_impl']
 
     def model_line(self, c):
